@@ -589,6 +589,46 @@ static string opNfaHist(const vector<string>& steps)
 	return out.str().substr(1);
 }
 
+
+// ---------------------------------------------------------------- LTS simulation engine
+// lts <n> <edges q,a,r;...|-> <partition b/b/... with b = q,q,... | -> <block relation i.j,... | -> <outputSize> <overload 0|1|2>
+static string opLts(const vector<string>& a)
+{
+	size_t n = toN(a.at(0));
+	ExplicitLTS lts(n);
+	if (a.at(1) != "-") for (const string& e : split(a.at(1), ';')) {
+		vector<string> f = split(e, ',');
+		lts.addTransition(toN(f.at(0)), toN(f.at(1)), toN(f.at(2)));
+	}
+	lts.init();
+	size_t outSize = toN(a.at(4));
+	int overload = static_cast<int>(toN(a.at(5)));
+	Util::BinaryRelation res;
+	if (overload == 0) {
+		std::vector<std::vector<size_t>> partition;
+		for (const string& b : split(a.at(2), '/')) {
+			std::vector<size_t> blk;
+			for (const string& q : split(b, ',')) blk.push_back(toN(q));
+			partition.push_back(blk);
+		}
+		Util::BinaryRelation rel(partition.size(), false);
+		if (a.at(3) != "-") for (const string& e : split(a.at(3), ',')) {
+			vector<string> f = split(e, '.');
+			rel.set(toN(f.at(0)), toN(f.at(1)), true);
+		}
+		res = lts.computeSimulation(partition, rel, outSize);
+	}
+	else if (overload == 1) res = lts.computeSimulation(outSize);
+	else res = lts.computeSimulation();
+	std::ostringstream os;
+	os << "size=" << res.size() << " rel=";
+	bool first = true;
+	for (size_t q = 0; q < res.size(); ++q) for (size_t r = 0; r < res.size(); ++r)
+		if (res.get(q, r)) { if (!first) os << ","; os << q << "." << r; first = false; }
+	if (first) os << "-";
+	return os.str();
+}
+
 // ---------------------------------------------------------------- dispatcher
 static string runCase(const string& kind, const vector<string>& args)
 {
@@ -607,6 +647,7 @@ static string runCase(const string& kind, const vector<string>& args)
 	if (kind == "compl") return opCompl(args);
 	if (kind == "rename") return opRename(args);
 	if (kind == "nfah") return opNfaHist(args);
+	if (kind == "lts") return opLts(args);
 	return "BADKIND";
 }
 
